@@ -88,6 +88,26 @@ def check(ctx: Ctx, rep: Report):
             rep.check(not why, "C08.R1", "raise:%s:%s" % (fam.validator.short, "|".join(sorted(repr(f) for f in r.facts))[-100:]), fam.validator.loc(p.end_node),
                       "rejection carries the reason of the code byte and is raised for a foreign function code",
                       bad="%s: %s [path %s]" % (fam.validator.short, "; ".join(why), p.describe()))
+    # ... and the converse: once a validator has found the function code different from the command's, every path ends
+    # in that raise (no exception code is answered with "invalid frame", which would be retried or mis-reported)
+    for fam in fams.values():
+        if fam.kind == "aa55":
+            continue
+        data = data_param(fam)
+        fc_t = byte_t(data, fam.fc)
+        cmd_t = vparam_term(fam, "cmd")
+        bad = None
+        npaths = 0
+        for p, r in validator_paths(ctx, fam):
+            if not any(f.kind == "ne" and f.lin is not None and set(f.lin.terms) == {fc_t, cmd_t} for f in r.facts):
+                continue
+            npaths += 1
+            if not (p.end == "raise" and p.end_data is rejected) and bad is None:
+                bad = p
+        rep.check(bad is None and npaths > 0, "C08.R1", "always-raised:%s" % fam.validator.short, fam.validator.loc(),
+                  "%s raises RequestRejectedException on each of the %d paths that found a foreign function code" % (fam.validator.short, npaths),
+                  bad="%s: a frame whose function code differs from the command's (a Modbus exception answer) can end in '%s' instead of RequestRejectedException(reason) [path %s]" % (
+                      fam.validator.short, (bad.end if bad else "?"), bad.describe() if bad else ""))
     if nsites < 2:
         raise AnalysisError("expected rejection raise sites in both Modbus validators, found %d" % nsites)
     init = rejected.methods.get("__init__")
